@@ -21,6 +21,7 @@ import (
 // call written in the method's body.
 
 type nSite struct {
+	File   string `json:"file"` // main.rb, or lib.rb when the definitions are preloaded
 	Row    int    `json:"row"`
 	Method string `json:"method"` // enclosing method ("" = top level)
 	Class  string `json:"class"`  // enclosing class ("" = none)
@@ -37,6 +38,17 @@ type nMethod struct {
 type nCase struct {
 	Source  string    `json:"source"`
 	Methods []nMethod `json:"methods"`
+	// Split > 0: rows 1..Split are preloaded as lib.rb, the rest is main.rb
+	Split int `json:"split"`
+}
+
+func (nc *nCase) exec(argv ...string) *Exec {
+	if nc.Split == 0 {
+		return &Exec{Files: map[string]string{targetFile: nc.Source}, Argv: append([]string{targetFile}, argv...)}
+	}
+	lines := strings.SplitAfter(nc.Source, "\n")
+	return &Exec{Files: map[string]string{"lib.rb": strings.Join(lines[:nc.Split], ""), targetFile: strings.Join(lines[nc.Split:], "")},
+		Argv: append([]string{targetFile}, argv...), Preload: []string{"lib.rb"}}
 }
 
 func genNav(r *RNG) *nCase {
@@ -79,6 +91,24 @@ func genNav(r *RNG) *nCase {
 		l := leaf{"Calc", name, addMethod("Calc", name)}
 		leaves = append(leaves, l)
 		calcLeaves = append(calcLeaves, l)
+	}
+	// a class method, called from class methods of Calc and of its subclass
+	hasStatic := r.Bool()
+	sbuild := -1
+	if hasStatic {
+		sbuild = addMethod("Calc", "sbuild")
+		emit("  def self.sbuild(a = 1)")
+		emit("    a")
+		emit("  end")
+		if r.Bool() {
+			fi := addMethod("Calc", "factory")
+			emit("  def self.factory(a = 1)")
+			site(sbuild, "factory", "Calc", "class-method-implicit")
+			nc.Methods[fi].Callees = append(nc.Methods[fi].Callees, "sbuild")
+			emit("    sbuild(a)")
+			emit("  end")
+			leaves = append(leaves, leaf{"Calc.", "factory", fi})
+		}
 	}
 	// caller methods inside Calc: implicit-receiver calls in various positions
 	nCallers := 1 + r.Intn(3)
@@ -171,6 +201,19 @@ func genNav(r *RNG) *nCase {
 		nc.Methods[si].Callees = append(nc.Methods[si].Callees, l.name)
 		emit("    " + l.name + "(a)")
 		emit("  end")
+		if hasStatic {
+			mi := addMethod("SubCalc", "make")
+			emit("  def self.make(a = 1)")
+			nc.Methods[mi].Callees = append(nc.Methods[mi].Callees, "sbuild")
+			if r.Bool() {
+				site(sbuild, "make", "SubCalc", "inherited-class-method-self")
+				emit("    self.sbuild(1)")
+			}
+			site(sbuild, "make", "SubCalc", "inherited-class-method-implicit")
+			emit("    sbuild(2)")
+			emit("  end")
+			leaves = append(leaves, leaf{"SubCalc.", "make", mi})
+		}
 		emit("end")
 		leaves = append(leaves, leaf{"SubCalc", "own", si})
 	}
@@ -189,6 +232,8 @@ func genNav(r *RNG) *nCase {
 	emit("    1")
 	emit("  end")
 	emit("end")
+	// everything above may be preloaded
+	libRows := len(lines)
 	// top-level caller method
 	tc := addMethod("", "topcaller")
 	emit("def topcaller(k)")
@@ -232,6 +277,9 @@ func genNav(r *RNG) *nCase {
 					emit("  w = 1")
 					emit("end")
 				}
+			case l.class == "Calc." || l.class == "SubCalc.":
+				site(l.idx, "", "", "top-level-class-method")
+				emit(strings.TrimSuffix(l.class, ".") + "." + l.name + "(2)")
 			case l.class == "SubCalc":
 				site(l.idx, "", "", "top-level")
 				emit("sub." + l.name + "(2)")
@@ -245,15 +293,44 @@ func genNav(r *RNG) *nCase {
 			}
 		}
 	}
+	if hasStatic {
+		for q := r.Intn(3); q > 0; q-- {
+			if hasSub && r.Bool() {
+				site(sbuild, "", "", "top-level-inherited-class-method")
+				emit("SubCalc.sbuild(4)")
+			} else {
+				site(sbuild, "", "", "top-level-class-method")
+				emit("Calc.sbuild(5)")
+			}
+		}
+	}
 	nc.Source = strings.Join(lines, "\n") + "\n"
+	// one program in three: the class definitions are a preloaded file
+	if r.Chance(1, 3) {
+		nc.Split = libRows
+	}
+	for mi := range nc.Methods {
+		for si := range nc.Methods[mi].Sites {
+			st := &nc.Methods[mi].Sites[si]
+			st.File = targetFile
+			if nc.Split > 0 {
+				if st.Row <= nc.Split {
+					st.File = "lib.rb"
+				} else {
+					st.Row -= nc.Split
+				}
+				st.Form += "+preloaded-definitions"
+			}
+		}
+	}
 	return nc
 }
 
 var navPointRe = regexp.MustCompile(`^    - call point: (.*):(\d+)$`)
 
 type navEntry struct {
-	method, class string
-	row           int
+	method, class, file string
+	row                 int
 }
 
 func parseNav(out string) (header string, callers []navEntry, total int, callees []string, ok bool) {
@@ -284,6 +361,7 @@ func parseNav(out string) (header string, callers []navEntry, total int, callees
 		case navPointRe.MatchString(l) && section == "callers":
 			m := navPointRe.FindStringSubmatch(l)
 			fmt.Sscanf(m[2], "%d", &cur.row)
+			cur.file = m[1]
 			callers = append(callers, cur)
 		case strings.HasPrefix(l, "  - total callers: "):
 			fmt.Sscanf(strings.TrimPrefix(l, "  - total callers: "), "%d", &total)
@@ -298,7 +376,7 @@ func judgeNav(c *CheckCtx, rn Runner, nc *nCase) *Violation {
 	}
 	c.Nontrivial(nc.Source)
 	for _, m := range nc.Methods {
-		out, ok := relRun(c, rn, &Exec{Files: map[string]string{targetFile: nc.Source}, Argv: []string{targetFile, "--llm-nav", "--target=" + m.Name}})
+		out, ok := relRun(c, rn, nc.exec("--llm-nav", "--target="+m.Name))
 		if !ok {
 			c.Event("skipped_crash_or_hang", 1)
 			return nil
@@ -320,26 +398,26 @@ func judgeNav(c *CheckCtx, rn Runner, nc *nCase) *Violation {
 			return mk("nav:wrong-method", fmt.Sprintf("--llm-nav --target=%s prints the section of %q", m.Name, header), out)
 		}
 		// multiset comparison of (row, enclosing method, enclosing class)
-		key := func(row int, meth, class string) string {
+		key := func(file string, row int, meth, class string) string {
 			if meth == "" {
 				meth = "top level"
 			}
 			if class == "" {
 				class = "none"
 			}
-			return fmt.Sprintf("%d|%s|%s", row, meth, class)
+			return fmt.Sprintf("%s:%d|%s|%s", file, row, meth, class)
 		}
 		want := map[string]int{}
 		forms := map[string]string{}
 		for _, s := range m.Sites {
-			k := key(s.Row, s.Method, s.Class)
+			k := key(s.File, s.Row, s.Method, s.Class)
 			want[k]++
 			forms[k] = s.Form
 			c.Event("call_sites_judged", 1)
 		}
 		got := map[string]int{}
 		for _, e := range callers {
-			got[key(e.row, e.method, e.class)]++
+			got[key(e.file, e.row, e.method, e.class)]++
 		}
 		var keys []string
 		for k := range want {
